@@ -278,3 +278,32 @@ def run(ctx, rep):
                             printed_ok = printed_ok or (coll is not None and H.same(coll, maps[0]) and proj == ('1',))
         rep.check(ok and printed_ok, 'R5', 'selection', c.where(), 'prints the packaged directory of each selected root buildpack',
                   'the stdout print is not the for_each over the packaged dirs filtered by the selected root nodes')
+    # ---- R6 ------------------------------------------------------------------------------------------
+    # where the output goes: a relative --package-dir is resolved against the invocation directory (not the workspace root);
+    # the default is <workspace root>/packaged
+    rep.rule('R6', 'package directory: --package-dir relative to the invocation directory, default <workspace root>/packaged')
+    AP = 'libcnb_package::util::absolutize_path'
+    aps = [c for c in ex.calls if c.name == AP] + [c for g in prog.closures_of(ex) for c in g.calls if c.name == AP]
+    ok_base = ok_default = False
+    detail = 'no absolutize_path call in execute'
+    for c in aps:
+        WR = 'libcnb_package::find_cargo_workspace_root_dir'
+        pv = sl.inline_deep(sl.operand(c.fn, c.args[0]), keep=(WR,))
+        bv = sl.inline_deep(sl.operand(c.fn, c.args[1]), keep=(WR,))
+        if not any(x[0] == 'field' and x[2] == 'package_dir' for x in walk(pv)):
+            continue
+        b = strip(bv)
+        ok_base = b[0] == 'call' and b[1] == 'std::env::current_dir' and bv[0] == 'unwrap'
+        # default: args.package_dir.unwrap_or(<workspace root>.join("packaged")), the root found from the invocation directory
+        p0 = strip(pv)
+        if p0[0] == 'call' and p0[1].endswith(('unwrap_or', 'unwrap_or_else')) and len(p0[2]) == 2:
+            dflt = strip(p0[2][1])
+            if dflt[0] == 'closure':
+                dflt = strip(sl.apply_closure(dflt, ()) or ('unknown',))
+            ok_default = dflt[0] == 'call' and dflt[1] in ('std::path::Path::join', 'std::path::PathBuf::join') and strip(dflt[2][1]) == ('const', 'packaged') \
+                and any(x[0] == 'call' and x[1] == 'libcnb_package::find_cargo_workspace_root_dir' for x in walk(dflt[2][0]))
+        detail = 'path=%s base=%s' % (vstr(pv)[:90], vstr(bv)[:60])
+    rep.check(ok_base, 'R6', 'package-dir/base', w(ex), 'a relative --package-dir is resolved against env::current_dir()',
+              'the package directory is not made absolute against the invocation directory: ' + detail)
+    rep.check(ok_default, 'R6', 'package-dir/default', w(ex), 'default package directory = <workspace root>/packaged',
+              'the default package directory is not <workspace root>/packaged: ' + detail)
